@@ -699,7 +699,7 @@ func (e *SpecEnv) quant(x *EQuant) Val {
 		for _, t := range tr {
 			tv := ne.eval(t)
 			for _, c := range tv.C {
-				if !(strings.HasPrefix(c, "(select ") || strings.HasPrefix(c, "(pf$")) {
+				if !(strings.HasPrefix(c, "(select ") || strings.HasPrefix(c, "(pf$") || strings.HasPrefix(c, "(sprintf$") || strings.HasPrefix(c, "(uf$")) {
 					okTrig = false
 				}
 			}
@@ -886,6 +886,25 @@ func (e *SpecEnv) call(x *ECall) Val {
 		v := e.eval(x.Args[0])
 		t := e.fx.eng.resolveType(e.pkg, x.Args[1].String())
 		return Val{T: t, C: []string{v.C[1]}}
+	case "sprintf":
+		// sprintf("format", args...): the same uninterpreted function the engine uses for fmt.Sprintf
+		fs, ok := x.Args[0].(*EStr)
+		if !ok {
+			sfail("sprintf needs a literal format")
+		}
+		var terms, sorts []string
+		for _, a := range x.Args[1:] {
+			v := e.eval(a)
+			t, srt := e.fx.sprintfArg(v)
+			if v.T == MathInt {
+				t, srt = []string{v.s()}, []string{"Int"}
+			}
+			terms = append(terms, t...)
+			sorts = append(sorts, srt...)
+		}
+		name := e.fx.sprintfName(fs.V, sorts)
+		e.fx.decls.declareFun(name, sorts, "Str")
+		return Val{T: types.Typ[types.String], C: []string{sx(name, terms...)}}
 	case "ref":
 		// ref(x): the object an interface value points to (its data word)
 		v := e.eval(x.Args[0])
@@ -965,6 +984,26 @@ func (e *SpecEnv) applyPure(pf *PureFunc, recv *Val, args []Expr) Val {
 		sfail("pure %s: %d args, want %d", pf.Key, len(argv), len(pf.Params))
 	}
 	pkg := e.fx.eng.typesPkg(pf.Pkg)
+	if pf.Uninterpreted {
+		var terms, sorts []string
+		for i, a := range argv {
+			pt := e.fx.eng.resolveType(pkg, pf.Params[i].Type)
+			cs := e.mode().comps(pt)
+			if len(cs) != 1 {
+				sfail("uf %s: composite parameter", pf.Key)
+			}
+			terms = append(terms, e.coerce(a, pt))
+			sorts = append(sorts, cs[0].sort)
+		}
+		rt := e.fx.eng.resolveType(pkg, pf.Result)
+		rs := e.mode().comps(rt)[0].sort
+		name := "uf$" + sanitize(lastSlash(pf.Pkg)+"."+pf.Key)
+		e.fx.decls.declareFun(name, sorts, rs)
+		if rt == nil {
+			rt = BoolT
+		}
+		return Val{T: rt, C: []string{sx(name, terms...)}}
+	}
 	if pf.Opaque && !e.reveal[pf.Key] && !e.reveal[lastDot(pf.Key)] {
 		return e.applyOpaque(pf, pkg, recv, argv)
 	}
